@@ -622,7 +622,7 @@ func (in *Interp) prim(name string, args []vread.Expr, env *Env, sc scope) Val {
 		vs := vals(args...)
 		c := in.asLoc(vs[0], name)
 		l := in.asLoc(*in.cell(c, 0), name)
-		in.lockRelease(l)
+		in.lockReleaseYield(l, false)
 		in.condBlock(c, name == "lock.condWaitTimeout")
 		in.lockAcquire(l)
 		return VUnit{}
